@@ -13,6 +13,8 @@
   feasibility-form   the quantity LocalInference compares with its fixed threshold is, in every oracle class, the plain mean over
                    overlapping region pairs of the L1 gap between their marginals on the shared attributes (same unit in all siblings)
   returns-own-iterate   estimation stores the (parameters, marginals) the inner loop returned
+  per-call-options   a key written into a parameter with a shared mutable default (`options={}`) is written on every path before the
+                   container is handed on: otherwise the value an earlier call stored (its callback) is used by this one
 Not decided: fit no worse than uniform, exactness on disjoint cliques, feasibility tolerance (numeric).
 """
 import ast
@@ -148,6 +150,9 @@ def run(ctx):
 
     check_feasibility(ctx, classes)
     check_restart_point(ctx, methods)
+    from ._generic import mutable_default_state
+    for name_, m_ in sorted(methods.items()):
+        mutable_default_state(ctx, m_, 'per-call-options')
     check_polished_result(ctx, methods)
     check_outer_regions(ctx)
 
